@@ -34,7 +34,7 @@ ASSUMPTIONS = ["for three or more numeric operands the leaf dtype may be numpy.r
                "when the operands are not merged into one type, 'unchanged up to the numeric cast' means: numpy's cast into the dtype of the union member the element landed in"]
 PLAN = {
     "quick": [{"flavour": "plain", "cases": 20000}, {"flavour": "san", "cases": 3000}],
-    "thorough": [{"flavour": "plain", "cases": 1000000}, {"flavour": "san", "cases": 250000}],
+    "thorough": [{"flavour": "plain", "cases": 400000}, {"flavour": "san", "cases": 80000}],
 }
 WALL_CAP = {"quick": 900, "thorough": 3300}
 FORK_EACH = False
